@@ -1,11 +1,12 @@
 #!/bin/bash
-# usage: mkreplay.sh <check> <prop> <seed> <run> <engine> '<sig>' <outfile>
+# usage: mkreplay.sh <check> <prop> <seed> <run> <engine> '<sig>' <outfile> [entry]
 # Development aid: regenerate run <run> of <check>, minimise the violation class <sig> of property <prop>.
 set -e
 cd /verif
 export PYTHONHASHSEED=0 PYTHONPATH=/verif
 tmp=$(mktemp /verif/.work/plan-XXXX.json)
-/venv/bin/python -m sim.mkplan --engine "$5" --check "$1" --seed "$3" --run "$4" --out "$tmp"
+if [ -n "$8" ]; then E="--entry $8"; else E=""; fi
+/venv/bin/python -m sim.mkplan --engine "$5" --check "$1" --seed "$3" --run "$4" --out "$tmp" $E
 mkdir -p "$(dirname "$7")"
 /venv/bin/python -m sim.shrink --engine "$5" --plan "$tmp" --prop "$2" --sig "$6" --out "$7" --wall 30
 rm -f "$tmp"
